@@ -230,36 +230,28 @@ theorem conflict_is_error (raw : Mapping) :
       unfold fromMappings
       simp only [hf]
 
-/-- THE round trip.  For every conflict-free list of (character, glyph) pairs — any order,
-duplicates allowed — with characters in U+0000..U+10FFFF except U+FFFF, glyph ids in 1..=0xFFFF and
-at most 6551 pairs (so that format 4 cannot overflow its 16-bit length), `Cmap::from_mappings`
-followed by `dump_table` succeeds, and on the built table
-* `Cmap::map_codepoint` (first subtable that answers, in record order) returns `some v` for `c`
-  exactly when `(c, v)` is an input pair — or `c` is U+FFFF and a format-4 subtable exists, which
-  answers the missing-glyph id 0 there;
-* skrifa's `Charmap::map` (subtable selection + notdef filtering) returns `some v` exactly when
-  `(c, v)` is an input pair, `none` for every other code point;
-* skrifa's `Charmap::mappings` (with the font's `Cmap12IterLimits`, every glyph id below
-  `numGlyphs`) enumerates exactly the input pairs, each once, in ascending character order. -/
-theorem from_mappings_roundtrip (raw : Mapping) (hcf : ConflictFree raw)
+/-- CORRECTNESS, without any size bound.  For every conflict-free list of (character, glyph)
+pairs — any order, duplicates allowed — with characters in U+0000..U+10FFFF except U+FFFF and glyph
+ids in 1..=0xFFFF: whenever `Cmap::from_mappings` followed by `dump_table` succeeds, the table
+* answers `Cmap::map_codepoint` (first subtable that answers, in record order) with `some v` for
+  `c` exactly when `(c, v)` is an input pair — or `c` is U+FFFF and a format-4 subtable exists,
+  which answers the missing-glyph id 0 there;
+* answers skrifa's `Charmap::map` (subtable selection + notdef filtering) with `some v` exactly
+  when `(c, v)` is an input pair, `none` for every other code point;
+* is enumerated by skrifa's `Charmap::mappings` (with the font's `Cmap12IterLimits`, every glyph id
+  below `numGlyphs`) as exactly the input pairs, each once, in ascending character order. -/
+theorem from_mappings_correct (raw : Mapping) (hcf : ConflictFree raw)
     (hr : ∀ p ∈ raw, p.1 ≤ 0x10FFFF ∧ p.1 ≠ 0xFFFF ∧ 1 ≤ p.2 ∧ p.2 ≤ 0xFFFF)
-    (hn : raw.length ≤ 6551) :
-    ∃ b, fromMappings raw = .ok b ∧
-      (∀ c v, c < 4294967296 →
-        (cmapMap b.subtables c = some v ↔ (c, v) ∈ raw ∨ (c = 0xFFFF ∧ v = 0 ∧ ∃ p ∈ raw, p.1 ≤ 0xFFFF))) ∧
-      (∀ c v, c < 4294967296 → (b.skMap c = some v ↔ (c, v) ∈ raw)) ∧
-      (∀ numGlyphs, (∀ p ∈ raw, p.2 < numGlyphs) →
-        b.skMappings (0x10FFFF, numGlyphs) = normalize raw ∧ Ascending (normalize raw) ∧
-        ∀ p, p ∈ normalize raw ↔ p ∈ raw) := by
+    (b : Built) (hb : fromMappings raw = .ok b) :
+    (∀ c v, c < 4294967296 →
+      (cmapMap b.subtables c = some v ↔ (c, v) ∈ raw ∨ (c = 0xFFFF ∧ v = 0 ∧ ∃ p ∈ raw, p.1 ≤ 0xFFFF))) ∧
+    (∀ c v, c < 4294967296 → (b.skMap c = some v ↔ (c, v) ∈ raw)) ∧
+    (∀ numGlyphs, (∀ p ∈ raw, p.2 < numGlyphs) →
+      b.skMappings (0x10FFFF, numGlyphs) = normalize raw ∧ Ascending (normalize raw) ∧
+      ∀ p, p ∈ normalize raw ↔ p ∈ raw) := by
   have hd := normalize_inDomain raw hcf hr
-  have hlen : (bmpPrefix (normalize raw)).length ≤ 6551 := by
-    have h1 := normalize_length_le raw
-    rcases Nat.lt_or_ge (normalize raw).length (bmpPrefix (normalize raw)).length with h | h
-    · have := (bmpPrefix_getElem? (normalize raw) (normalize raw).length h).2
-      omega
-    · omega
-  obtain ⟨b, hb, hs⟩ := fromMappings_ok raw hd hlen
-  refine ⟨b, hb, ?_, ?_, ?_⟩
+  have hs := builtSpec_of_ok raw hd b hb
+  refine ⟨?_, ?_, ?_⟩
   · intro c v hc
     rw [cmapMap_built _ hd b hs c v hc, mem_normalize]
     have : HasBmp (normalize raw) ↔ ∃ p ∈ raw, p.1 ≤ 0xFFFF := by
@@ -273,6 +265,35 @@ theorem from_mappings_roundtrip (raw : Mapping) (hcf : ConflictFree raw)
   · intro ng hng
     exact ⟨skMappings_built _ hd b hs ng (fun p hp => hng p ((mem_normalize raw p).1 hp)), hd.asc,
       mem_normalize raw⟩
+
+/-- SUCCESS: with at most 6551 input pairs (so that format 4 cannot overflow its 16-bit length,
+whatever the segmentation) building never fails -/
+theorem from_mappings_succeeds (raw : Mapping) (hcf : ConflictFree raw)
+    (hr : ∀ p ∈ raw, p.1 ≤ 0x10FFFF ∧ p.1 ≠ 0xFFFF ∧ 1 ≤ p.2 ∧ p.2 ≤ 0xFFFF)
+    (hn : raw.length ≤ 6551) : ∃ b, fromMappings raw = .ok b := by
+  have hd := normalize_inDomain raw hcf hr
+  have hlen : (bmpPrefix (normalize raw)).length ≤ 6551 := by
+    have h1 := normalize_length_le raw
+    rcases Nat.lt_or_ge (normalize raw).length (bmpPrefix (normalize raw)).length with h | h
+    · have := (bmpPrefix_getElem? (normalize raw) (normalize raw).length h).2
+      omega
+    · omega
+  obtain ⟨b, hb, _⟩ := fromMappings_ok raw hd hlen
+  exact ⟨b, hb⟩
+
+/-- THE round trip: success and correctness together -/
+theorem from_mappings_roundtrip (raw : Mapping) (hcf : ConflictFree raw)
+    (hr : ∀ p ∈ raw, p.1 ≤ 0x10FFFF ∧ p.1 ≠ 0xFFFF ∧ 1 ≤ p.2 ∧ p.2 ≤ 0xFFFF)
+    (hn : raw.length ≤ 6551) :
+    ∃ b, fromMappings raw = .ok b ∧
+      (∀ c v, c < 4294967296 →
+        (cmapMap b.subtables c = some v ↔ (c, v) ∈ raw ∨ (c = 0xFFFF ∧ v = 0 ∧ ∃ p ∈ raw, p.1 ≤ 0xFFFF))) ∧
+      (∀ c v, c < 4294967296 → (b.skMap c = some v ↔ (c, v) ∈ raw)) ∧
+      (∀ numGlyphs, (∀ p ∈ raw, p.2 < numGlyphs) →
+        b.skMappings (0x10FFFF, numGlyphs) = normalize raw ∧ Ascending (normalize raw) ∧
+        ∀ p, p ∈ normalize raw ↔ p ∈ raw) := by
+  obtain ⟨b, hb⟩ := from_mappings_succeeds raw hcf hr hn
+  exact ⟨b, hb, from_mappings_correct raw hcf hr b hb⟩
 
 /-- non-vacuity: shuffled input with a duplicate, BMP and supplementary characters -/
 example : ConflictFree [(0x1F600, 10), (66, 6), (65, 5), (66, 6), (0x4E00, 40000)] := by
